@@ -229,12 +229,16 @@ class Sim:
         self.pct_points = (
             sorted(rng.randrange(1, 400) for _ in range(pct_d)) if pct_d else []
         )
+        self.torn = False
 
     # ------------------------------------------------------------------ utils
     def count(self, name: str, n: int = 1) -> None:
         self.stats[name] = self.stats.get(name, 0) + n
 
     def event(self, kind: str, detail: Any = None) -> None:
+        if self.torn:
+            # threads released by the tear-down unwind in real time: nothing they do belongs to the history
+            return
         me = self.me()
         self.seq += 1
         self.log.append((self.seq, kind, me.key if me else "-", detail))
@@ -297,6 +301,7 @@ class Sim:
         _ACTIVE = None
         self._installed = False
         # release anything still parked so no thread leaks past the scenario
+        self.torn = True
         leftovers = [t for t in self.threads if t.state not in (DONE,) and t.thread]
         for t in leftovers:
             t.poison = HarnessError("simulation torn down")
@@ -381,6 +386,9 @@ class Sim:
 
     def _switch(self, me: Optional[SimThread], kind: str) -> None:
         """Baton holder ``me`` (or nobody) hands the baton to the next thread."""
+        if self.torn:
+            self.holder = None
+            return
         self.steps += 1
         if self.steps > self.max_steps:
             self.broken = "step cap"
@@ -444,6 +452,8 @@ class Sim:
         if me is None:
             raise HarnessError("block_until from unmanaged thread")
         while not pred():
+            if self.torn:
+                raise HarnessError("simulation torn down")
             me.state = BLOCKED
             me.pred = pred
             self._switch(me, "block")
@@ -507,7 +517,8 @@ class Sim:
                 fut.set_exception(exc)
             else:
                 self.event("finish", th.key)
-                self.completion_order.append(th.key)
+                if not self.torn:
+                    self.completion_order.append(th.key)
                 th.state = DONE
                 fut._sim_done_seq = self.seq
                 fut.set_result(res)
